@@ -984,6 +984,24 @@ pub fn oracle_c06_c07(w: &World, so: &StepObs, out: &mut StepOut, do6: bool, do7
         };
         let cum = vo.cum;
         let owed = owed_of(pp, cum);
+        // the 15-minute TWAP leg of the ratio, against a reference computed from the vAMM's raw reserve snapshots
+        // (the world is at the post-state: look at the pre-state)
+        if do6 && p0.out_twap >= 0 {
+            let post = w.store.0.borrow().clone();
+            *w.store.0.borrow_mut() = so.pre_snap.kv.clone();
+            let r15 = w.ref_out_twap(*v, &pp.direction, pp.size.value.u128(), 900);
+            *w.store.0.borrow_mut() = post;
+            if let Some(r15) = r15 {
+                out.tag("c06:twap-leg-compared-with-reference");
+                let tol = 4 + r15 / 1_000_000_000;
+                if (p0.out_twap as u128).abs_diff(r15) > tol {
+                    out.viol(
+                        "C06:twap-leg-differs-from-fifteen-minute-reference",
+                        format!("OutputTwap for {}'s position is {} but the 15-minute time-weighted quote over the reserve snapshots is {} ({:?})", t, p0.out_twap, r15, so.act),
+                    );
+                }
+            }
+        }
         if so.outcome.ok && !do6 {
             // C07 only: nothing to assert on a liquidation that went through
         } else if so.outcome.ok {
